@@ -423,11 +423,12 @@ CASES = {
 NPLAN = {"tpf_single": 5, "agp_multi": 7, "tpf_multi": 7, "fasta_multi": 10, "fasta_single": 6}
 
 
-def _fn(case, clob=None, wl=None):
+def _fn(case, clob=None, wl=None, fix=()):
+    """fix: concrete values for the first len(fix) pre-existence flags (splits the 2^n path tree)"""
     a, p, o = CASES[case]
     n = NPLAN[case]
-    name = f"nc_{case}" + ("" if clob is None else f"_c{int(clob)}") + ("" if wl is None else f"_w{int(wl)}")
-    args = ([] if clob is not None else ["clobber: bool"]) + ([] if wl is not None else ["write_log: bool"]) + [f"p{i}: bool" for i in range(n)] + ["sz: int"]
+    name = f"nc_{case}" + ("" if clob is None else f"_c{int(clob)}") + ("" if wl is None else f"_w{int(wl)}") + ("" if not fix else "_f" + "".join(str(int(b)) for b in fix))
+    args = ([] if clob is not None else ["clobber: bool"]) + ([] if wl is not None else ["write_log: bool"]) + [f"p{i}: bool" for i in range(len(fix), n)] + ["sz: int"]
     cl = "clobber" if clob is None else str(clob)
     w = "write_log" if wl is None else str(wl)
     return name, f'''
@@ -437,7 +438,7 @@ def {name}({", ".join(args)}) -> bool:
     pre: sz >= 0
     post: _
     """
-    return check("{a}", "{p}", "{o}", {n}, {cl}, {w}, [{", ".join(f"p{i}" for i in range(n))}], sz)
+    return check("{a}", "{p}", "{o}", {n}, {cl}, {w}, [{", ".join([str(bool(b)) for b in fix] + [f"p{i}" for i in range(len(fix), n)])}], sz)
 '''
 
 
@@ -450,8 +451,8 @@ def conditions(tier):
     out = []
     done_plan = set()
 
-    def add(case, clob, wl, tier_name, to):
-        name, src = _fn(case, clob, wl)
+    def add(case, clob, wl, tier_name, to, fix=()):
+        name, src = _fn(case, clob, wl, fix)
         return name, src
 
     # with --clobber every planned file is asked for (Overwrote/Created message): 2^n paths, so those are thorough-tier
@@ -459,10 +460,13 @@ def conditions(tier):
              ("agp_multi", False, None, "quick", 900), ("fasta_multi", False, None, "quick", 900),
              ("tpf_multi", False, None, "quick", 900), ("fasta_single", False, None, "quick", 900),
              ("agp_multi", True, None, "thorough", 3000), ("tpf_multi", True, None, "thorough", 3000), ("fasta_single", True, None, "thorough", 3000),
-             ("fasta_multi", True, True, "thorough", 6000), ("fasta_multi", True, False, "thorough", 6000)]
+             ]
+    # the largest case (10 planned outputs, 1024 subsets per write-log value) is split by the first two flags
+    specs += [("fasta_multi", True, w, "thorough", 3000, (b0, b1)) for w in (True, False) for b0 in (False, True) for b1 in (False, True)]
     parts, metas = [], []
-    for (case, clob, wl, tname, to) in specs:
-        name, src = add(case, clob, wl, tname, to)
+    for sp in specs:
+        (case, clob, wl, tname, to), fix = sp[:5], (sp[5] if len(sp) > 5 else ())
+        name, src = add(case, clob, wl, tname, to, fix)
         parts.append(src)
         metas.append((name, case, clob, wl, tname, to))
     src_all = HEAD + "".join(parts)
@@ -471,7 +475,8 @@ def conditions(tier):
         out.append(Cond("no_clobber_" + name[3:], src_all, name, to,
                         f"the real pretext-to-asm cli callback on real inputs ({a}, {p}) with output template {o}: {NPLAN[case]} planned output files, each pre-existing or not by a symbolic flag, pre-existing files of symbolic size >= 0"
                         + (", --clobber/--no-clobber symbolic" if clob is None else f", clobber={clob}") + (", --write-log/--no-write-log symbolic" if wl is None else f", write_log={wl}")
-                        + "; output side on an in-memory file system (open('x') on an existing name raises FileExistsError, 'w' truncates)",
+                        + (f"; pre-existence of the first two planned outputs fixed to {name[-2:]} (the four combinations are separate conditions)" if name[-4:-2] == "_f" else "")
+                        + "; output side on an in-memory file system (open('x') on an existing name raises FileExistsError, 'w' truncates, rename/replace overwrite)",
                         tier=tname, env=ENV, encodes=ENC))
     return out
 
